@@ -202,38 +202,33 @@ pub fn check_partition(out: &mut Out, text: &str, result: &Result<Vec<Token>, Ve
 }
 
 // The protocol answer for a tokenizer result (`r`: the guarded call of `tokenize` on `text`).
-pub fn tok_answer(text: &str, r: &Result<Result<Vec<Token>, Vec<crate::error::Error>>, String>) -> String {
+pub fn tok_answer(text: &str, r: &Result<Result<Vec<Token>, Vec<crate::error::Error>>, String>, ranges: &[(usize, usize)]) -> String {
     match r {
         Ok(Ok(ts)) => format!("ok{}", ts.iter().map(|t| format!(" {}", tok_str(t))).collect::<String>()),
         Ok(Err(es)) => {
-            // ranges: start = position of the k-th offending code point; recomputed from the symbol texts in order
-            let syms = err_symbols(es);
-            let mut pos = 0usize;
-            let mut parts = vec![];
-            let mask = comment_mask(text);
-            for s in &syms {
-                // find next occurrence of s at/after pos that is outside comments
-                let mut found = None;
-                let mut p = pos;
-                while let Some(off) = text[p..].find(s.as_str()) {
-                    let a = p + off;
-                    if !mask[a] { found = Some(a); break; }
-                    p = a + text[a..].chars().next().map_or(1, |c| c.len_utf8());
-                }
-                match found {
-                    Some(a) => { parts.push(format!(" {}:{}", a, a + s.len())); pos = a + text[a..].chars().next().map_or(1, |c| c.len_utf8()); }
-                    None => parts.push(" ?:?".to_owned()),
-                }
+            // the source range of every diagnostic, as passed to `listing` (hook H3), in order
+            let _ = text;
+            if ranges.len() == es.len() {
+                format!("err{}", ranges.iter().map(|(a, b)| format!(" {a}:{b}")).collect::<String>())
+            } else {
+                format!("err{} [{} diagnostics, {} listings]", ranges.iter().map(|(a, b)| format!(" {a}:{b}")).collect::<String>(), es.len(), ranges.len())
             }
-            format!("err{}", parts.concat())
         }
         Err(_) => "panic".to_owned(),
     }
 }
 
-pub fn check_text(out: &mut Out, text: &str) {
+// `tokenize` under catch_unwind, together with the ranges of its diagnostics
+pub fn tokenize_recorded<'a>(text: &'a str) -> (Result<Result<Vec<Token<'a>>, Vec<crate::error::Error>>, String>, Vec<(usize, usize)>) {
+    crate::error::verif_hooks::LISTING_RANGES.with(|v| v.borrow_mut().clear());
     let r = guarded(|| tokenize(None, text));
-    let imp = tok_answer(text, &r);
+    let ranges = crate::error::verif_hooks::LISTING_RANGES.with(|v| v.borrow().clone());
+    (r, ranges)
+}
+
+pub fn check_text(out: &mut Out, text: &str) {
+    let (r, ranges) = tokenize_recorded(text);
+    let imp = tok_answer(text, &r, &ranges);
     out.case(&op_line(text), &imp);
     match &r {
         Ok(res) => {
@@ -350,9 +345,11 @@ pub fn check_layout(out: &mut Out, rng: &mut Rng) {
     }
 }
 
-pub const ALPHABET: [&str; 24] = [
+// one representative per behaviour class of the tokenizer; `²` and `٣` are alphanumeric but neither alphabetic nor
+// ASCII digits (they may continue a word but not start one, and are not part of a number)
+pub const ALPHABET: [&str; 26] = [
     "a", "f", "i", "1", "0", "_", "*", ":", "(", ")", "-", ">", "=", "<", ";", "#", "\n", " ", "\t", "\r",
-    "\u{a0}", "é", "$", "\u{301}",
+    "\u{a0}", "é", "$", "\u{301}", "²", "٣",
 ];
 
 pub fn run(out: &mut Out, tier: &str, seed: u64) {
@@ -386,9 +383,9 @@ pub fn run(out: &mut Out, tier: &str, seed: u64) {
         }
     }
     // random longer Unicode texts built from fragments
-    let frags: [&str; 40] = ["x", "foo", "if", "then", "else", "type", "int", "bool", "true", "false", "iff", "int2", "λ", "é", "𝐀",
+    let frags: [&str; 44] = ["x", "foo", "if", "then", "else", "type", "int", "bool", "true", "false", "iff", "int2", "λ", "é", "𝐀",
         "42", "0", "18446744073709551616", " ", "  ", "\n", "\t", "\r\n", "# c\n", "#\n", "# é\n", "+", "-", "->", "=>", "==", "=", "<=", ">=",
-        "(", ")", "{", "}", "$", "👩\u{200d}💻"];
+        "(", ")", "{", "}", "$", "👩\u{200d}💻", "²", "x²", "½", "１"];
     let n_random = if tier == "thorough" { 200000 } else { 20000 };
     for _ in 0..n_random {
         let big = rng.chance(1, 10); let n = 1 + rng.below(if big { 120 } else { 14 });
